@@ -397,6 +397,21 @@ def update (s : SDB) : Option SDB :=
     | some batch =>
       some { buf := s1.buf, cache := cache', trie := batch.foldl (fun t e => t.set e.1 e.2) s1.trie }
 
+/-- the record `updateStorage` creates for an account that has none -/
+def _root_.Aergo.Buffer.emptyRec : AVal := { nonce := 0, sroot := [] }
+
+/-- `bufferedStorage.update` as a total function (it is defined under the invariant) -/
+def _root_.Aergo.Buffer.Storage.flushed (st : Storage) : Storage :=
+  match st.update with
+  | some st' => st'
+  | none => st
+
+/-- the specification of what `updateStorage` does to the record of an account whose staged storage
+is `st`: re-put with the new storage root when the storage is dirty (created empty if there was no
+record), untouched otherwise -/
+def _root_.Aergo.Buffer.recAfter (old : Option AVal) (st : Storage) : Option AVal :=
+  if st.flushed.dirty then some { (old.getD emptyRec) with sroot := st.flushed.trie } else old
+
 def stageAll : AMap Storage → Option (AMap Storage)
   | [] => some []
   | (c, st) :: t =>
